@@ -69,7 +69,7 @@ func (c *Ctx) ruleNextDirectiveRecognised(rule string) {
 	}
 	fold := func(line string) string {
 		ev.Follow = func(fn *ssa.Function) bool {
-			return fn.Pkg != nil && strings.HasPrefix(fn.Pkg.Pkg.Path(), prog.ModulePath)
+			return inModule(fn)
 		}
 		ev.Global = func(g *ssa.Global) (ssaeval.Value, bool) {
 			// the spelling table: the package-level []string of package directive that E2 read
@@ -226,7 +226,7 @@ func (c *Ctx) ruleResponseCodeGate(rule string) {
 	}
 	ev := &ssaeval.Eval{MaxDepth: 6, MaxPaths: 64, MaxVisits: 2000}
 	ev.Follow = func(fn *ssa.Function) bool {
-		return fn.Pkg != nil && strings.HasPrefix(fn.Pkg.Pkg.Path(), prog.ModulePath)
+		return inModule(fn)
 	}
 	if dp := c.P.Pkg("directive"); dp != nil && c.P.SSAPkgs[dp.Types] != nil {
 		ev.Inits(c.P.SSAPkgs[dp.Types])
